@@ -683,13 +683,14 @@ PROPS['C18'] = {
     'theorems': ['C18.C18_recv_bounds', 'C18.C18_protocol', 'C18.C18_slices', 'C18.C18_cmsg_writer', 'C18.C18_cmsg_reader', 'C18.C18_shm_pairing',
                  'C18.C18_shm_zero', 'C18.C18_shape', 'Bounds.follow_spec', 'Frag.sendLoop_firstFits', 'Frag.recvMsg_shape'],
     'builds': ['default', 'memfd'],
-    'scenarios': plus(frag_scen('c18', [4608, 8192], [4608, 8192, 65536, 0]), shm_scen(['default', 'memfd'], 120, 3000)),
+    'scenarios': plus(frag_scen('c18', [4608, 8192], [4608, 8192, 65536, 0]), shm_scen(['default', 'memfd'], 120, 3000),
+                      lambda tier, seed: [{'args': ['crash', '--shape', '1', '--tier', tier]}]),
     'search': search_frag,
     'rule': ('frag c18: lengths {0, 1, 8, 2001, M-1, M, M+1, M+F-1, M+F, M+F+1, M+3F+7, seeded < 8F} (M/F = first/follow-up packet capacity) x attachments '
              '{none, 3 channels + 2 regions, 63 channels} x ENOBUFS patterns over the first 4 (thorough 6) attempts with at most two faults (short follow-up packets) x 2 '
              'spoofed buffer sizes (thorough: 4 incl. the system default): the sizes handed to the kernel by every sendmsg/send/recvmsg/recv (iovec lengths, control-buffer '
              'capacity, follow-up counts) are compared with the model, the returned Vec\'s (capacity, length) with the ghost buffer of Bounds.recv, the payload byte for '
-             'byte with seeded random content (an unwritten byte shows as a difference); shm: region histories incl. zero length, munmap lengths checked against the '
+             'byte with seeded random content (an unwritten byte shows as a difference); crash: the message received after a discarded (truncated) one is compared byte for byte as well — the receive buffer is re-used across the discard; shm: region histories incl. zero length, munmap lengths checked against the '
              'mapping ledger; non-trivial = more than one system call; distinct = distinct trace'),
     'explanation': ('ghost-buffer theorem for recv over arbitrary follow-up packet sizes, protocol facts for every packet a send can emit, slice bounds, control-message '
                     'reader/writer bounds and map/unmap pairing proved; the ghost values are observable (sizes in system calls, Vec capacity/length) and compared on real runs'),
